@@ -1,4 +1,5 @@
 import ExaModel.Model.Session
+import ExaModel.Lemmas.SessionTrace
 import ExaModel.Driver.Util
 /- Line protocol for M-Session.  One output line per input line.
 
@@ -83,6 +84,40 @@ def showOut : Out → String
   | .reject c => s!"reject {c}"
   | .gotNotification c => s!"ghost {c}"
 
+def kind? : List String → Option Kind
+  | ["OPEN"] => some .open | ["KEEPALIVE"] => some .keepalive | ["UPDATE"] => some .update
+  | ["EOR"] => some .eor | ["REFRESH"] => some .refresh
+  | ["NOTIFICATION", c, s] => match c.toNat?, s.toNat? with
+    | some c, some s => some (.notification c s)
+    | _, _ => none
+  | _ => none
+
+/-- an observed trace item, in the vocabulary of `showOut` -/
+def out? (ws : List String) : Option Out :=
+  match ws with
+  | ["fsm", ab] => match ab.splitOn ">" with
+    | [a, b] => match fsm? a, fsm? b with
+      | some a, some b => some (.fsm a b)
+      | _, _ => none
+    | _ => none
+  | ["close", c] => c.toNat?.map .close
+  | ["up"] => some .up
+  | ["down"] => some .down
+  | ["reject", c] => c.toNat?.map .reject
+  | ["ghost", c] => c.toNat?.map .gotNotification
+  | "send" :: c :: rest =>
+    match c.toNat?, rest.getLast?, kind? rest.dropLast with
+    | some c, some st, some k => (fsm? st).map fun st => .send c k st
+    | _, _, _ => none
+  | _ => none
+
+/-- `chkAll` with the position of the first item the checker refuses -/
+def chkFrom (strict : Bool) : Nat → G → List Out → Option Nat
+  | _, _, [] => none
+  | i, g, o :: os => match chk strict g o with
+    | some g' => chkFrom strict (i + 1) g' os
+    | none => some i
+
 def visible : Out → Bool
   | .gotNotification _ => false
   | _ => true
@@ -129,6 +164,17 @@ def sessionLine (s : State) (ws : List String) : State × String :=
       | some st => (s, showPairs (errorClass c st))
       | none => bad
     | _, _ => bad
+  | "chk" :: strict :: items =>
+    -- the trace checker of Lemmas/SessionTrace.lean on an observed trace (items separated by ';'), from
+    -- the initial monitor state; what an accepted trace satisfies is proved in Lemmas/SessionCheck.lean
+    let parts := ((joinWith " " items).splitOn ";").map fun it => out? ((it.trimAscii.toString.splitOn " ").filter (· ≠ ""))
+    match bool? strict with
+    | none => bad
+    | some strict =>
+      if parts.any Option.isNone then (s, "bad-item")
+      else match chkFrom strict 0 { fsm := .idle, up := false, dead := [] } (parts.filterMap id) with
+        | none => (s, "accepted")
+        | some i => (s, s!"refused {i}")
   | ["rfctable"] =>
     (s, joinWith "," (rfcTable.map fun p => s!"{fsmName p.1}>{fsmName p.2}"))
   | ["raised", f] =>
